@@ -212,10 +212,10 @@ class UnitX(Unit):
                             '_ => appended((*old(base_fields))@, (*final(base_fields))@, ext_own(e, elem_kids(e).len())) }) }')],
                   origin={'node-unchanged': 'helper', 'no-extension-no-change': 'helper', 'base-members-then-own': 'property'},
                   closures=[{'at': '|n| n.is_element() && n.tag_name().name() == "extension"', 'ret': 'b: bool', 'ensures': 'b == is_ext(*n)'},
-                            {'at': '|n| n.is_element() && n.tag_name().name() == "sequence"', 'ret': 'b: bool', 'ensures': 'b == is_seq_elem(n)'}],
+                            {'at': '|n| n.is_element() && matches!(n.tag_name().name(), "sequence" | "choice")', 'ret': 'b: bool', 'ensures': 'b == is_seq_elem(n)'}],
                   opaque=[{'at': 'base_fields.clone_from(&struct_props.fields)', 'call': '*base_fields = (struct_props.fields).clone()', 'type': '-', 'note': CLONE_FROM_NOTE},
                           {'at': 'base.children().filter(Node::is_element)', 'call': 'element_children(base)', 'type': 'Vec<Node>', 'note': ELEM_CHILDREN_NOTE}],
-                  inserts=[{'pos': 'body_start', 'text': BROADCAST + '\n' + reveal('extension', 'sequence', 'attribute', 'base')},
+                  inserts=[{'pos': 'body_start', 'text': BROADCAST + '\n' + reveal('extension', 'sequence', 'choice', 'attribute', 'base')},
                            {'at': 'let has_sequence', 'text': uniq}],
                   loops={0: {'kind': 'for', 'iter': 'it', 'match': 'in base.children()',
                              'invariants': [('extension-fixed', 'base == base0 && it.seq() == elem_kids(base) && has_sequence == has_seq(base)'),
